@@ -27,7 +27,8 @@ func TestVerifServe(t *testing.T) {
 	}
 	out := map[string]srvT{}
 	mk := func(mode string, cfg []string) {
-		w := newWorld(vWorldOpts{CertCfg: cfg, WebUICfg: []string{"password"}, Ed25519: true})
+		// "password_noed": the default deployment - no second (Ed25519) CA key configured
+		w := newWorld(vWorldOpts{CertCfg: cfg, WebUICfg: []string{"password"}, Ed25519: mode != "password_noed"})
 		w.pw.pw["alice.with.quite.a.long.name"] = "pw-alice.with.quite.a.long.name"
 		w.st.Config.Base.EnableLocalTOTP = true
 		if mode == "totp" {
@@ -54,6 +55,7 @@ func TestVerifServe(t *testing.T) {
 		out[mode] = srvT{srv.URL, caPath}
 	}
 	mk("password", []string{"password"})
+	mk("password_noed", []string{"password"})
 	mk("totp", []string{"TOTP"})
 	mk("vip", []string{"SymantecVIP"})
 	b, _ := json.Marshal(out)
